@@ -285,3 +285,9 @@ PMM_ASSUMPTIONS = ['memory map delivered through the real multiboot.VisitMemRegi
                    'reserved at initialisation (kernel image, early-boot frames) is accepted by the code (known finding)',
                    'single caller at a time (concurrency is C09); the spinlock is not modelled',
                    'the hand-written Gallina model is tied to the Go code by differential testing only']
+
+PMM_PARTIAL = ['all theorems are proved in full for the stated quantifier; the only restriction on histories is history_ok '
+               '(no FreeFrame of a frame that was reserved at initialisation for the kernel image / early boot): for the '
+               'unrestricted quantifier the statements are refuted by a concrete witness (C01_full_alloc_exclusive_refuted, '
+               'C03_full_history_contract_refuted = known finding c03:free-of-init-reserved-frame-accepted)',
+               'small_map: fewer than 2^32-64 frames of available RAM (uint32 counters of the implementation)']
